@@ -134,6 +134,22 @@ def _o2o3():
         E['C'](id=1, a=a1); E['C'](id=2, a=a1)
     return Model('o2o3', define, populate, tags=['o2o3'], opts=dict(rel='o2o3', req=False, cascade=True, uniq=False, inherit=False, ckey=False, pk='int', lazy=False, np='default', lazy_rel=False))
 
+def _mix3():
+    """three entities: A has a many-to-many collection (declared first) and a one-to-many collection whose
+    reverse is required without cascade - deleting an A with both is refused AFTER the many-to-many side was
+    already unlinked; two relationship kinds meet in one object"""
+    def define(db):
+        from pony.orm import PrimaryKey, Required, Optional, Set
+        type('A', (db.Entity,), dict(id=PrimaryKey(int), n=Optional(int), bs=Set('B'), cs=Set('C', cascade_delete=False)))
+        type('B', (db.Entity,), dict(id=PrimaryKey(int), m=Optional(int), as_=Set('A')))
+        type('C', (db.Entity,), dict(id=PrimaryKey(int), a=Required('A')))
+    def populate(E):
+        a1 = E['A'](id=1, n=0); a2 = E['A'](id=2, n=1)
+        b1 = E['B'](id=1, m=0); b2 = E['B'](id=2, m=1)
+        a1.bs.add(b1); a1.bs.add(b2); a2.bs.add(b1)
+        E['C'](id=1, a=a1); E['C'](id=2, a=a2)
+    return Model('mix3', define, populate, tags=['mix3'], opts=dict(rel='mix3', req=True, cascade=None, uniq=False, inherit=False, ckey=False, pk='int', lazy=False, np='default', lazy_rel=False))
+
 def catalogue(tier='quick'):
     """Model list. quick: one representative per relationship kind and option that changes code
     paths; thorough: the full option product."""
@@ -152,7 +168,7 @@ def catalogue(tier='quick'):
     M.append(_rel_model('o2m', req=True, cascade=False))
     M.append(_rel_model('o2m', req=False, cascade=True))
     M.append(_rel_model('o2m', req=False, pk='auto'))
-    M.append(_casc3(False)); M.append(_casc3(True)); M.append(_o2o3())
+    M.append(_casc3(False)); M.append(_casc3(True)); M.append(_o2o3()); M.append(_mix3())
     if tier != 'quick':
         M.append(_rel_model('o2o', req=False, cascade=True))
         M.append(_rel_model('o2o', req=True, cascade=False))
